@@ -220,7 +220,10 @@ class Parser:
       self.form("localparam")
       return ("localparam", ty, nm, e)
     if t[1] in ("logic", "wire", "reg", "integer", "int", "bit") or (t[0] == "id" and t[1] in self.typedefs):
-      ty = self.data_type(); nm = self.ident(); dims = self.unpacked_dims()
+      ty = self.data_type()
+      is_signed_int = t[1] in ("integer", "int") and self.toks[self.i - 1][1] != "unsigned"       # LRM 6.11: integer / int are signed
+      nm = self.ident(); dims = self.unpacked_dims()
+      if is_signed_int: self.signed_ints = getattr(self, "signed_ints", set()) | {nm}
       if dims: self.form("unpacked array decl")
       self.expect(";")
       return ("decl", ty, nm, dims)
@@ -682,6 +685,7 @@ class Sim:
     k = e[0]
     if k == "num": return bool(e[3])
     if k == "id": return (not e[2]) and e[1] in self.loopvars and getattr(self, "loop_signed", {}).get(e[1], False)
+    if k == "cast": return self.is_signed(e[2], inst)          # 6.24.1: a size cast passes the signedness through
     if k == "un": return e[1] in ("-", "+", "~") and self.is_signed(e[2], inst)
     if k == "bin" and e[1] in ("+", "-", "*", "/", "%", "&", "|", "^"): return self.is_signed(e[2], inst) and self.is_signed(e[3], inst)
     return False
@@ -796,7 +800,8 @@ class Sim:
       islocal = True      # loop variables (also module-level `integer` ones) are process-local scratch
       saved = self.loopvars.get(var)
       if not hasattr(self, "loop_signed"): self.loop_signed = {}
-      self.loop_signed[var] = (decl == "signed")
+      # a loop over a variable declared elsewhere ( integer i; ... for ( i = 0; ... ) ) has the signedness of that declaration
+      self.loop_signed[var] = (decl == "signed") or (decl is False and var in getattr(self.design, "signed_ints", ()))
       if islocal:
         self.loopvars[var] = self.ev(init, inst, 32)
       else:
